@@ -141,8 +141,12 @@ fn reset_mark() -> &'static str {
     }
 }
 
+/// extra patience for scripts with slow handlers (/w<ms> with ms >= 4000): set per case by the S-mode runner
+static EXTRA_WAIT_MS: std::sync::atomic::AtomicU64 = std::sync::atomic::AtomicU64::new(0);
+
 fn read_all(client: &mut std::net::TcpStream) -> Vec<u8> {
-    client.set_read_timeout(Some(std::time::Duration::from_secs(5))).unwrap();
+    let extra = EXTRA_WAIT_MS.load(std::sync::atomic::Ordering::SeqCst);
+    client.set_read_timeout(Some(std::time::Duration::from_millis(5000 + extra))).unwrap();
     let mut out = Vec::new();
     let mut buf = [0u8; 65536];
     loop {
@@ -269,6 +273,18 @@ fn server(toks: &[&str], idle: bool, revoke_mid: bool, second_server: bool, chec
     let sched: Vec<usize> = toks[2].split(',').map(|s| s.parse().unwrap()).collect();
     let pause_ms: u64 = toks[3].parse().unwrap();
     let script = expand_bytes(toks[4]);
+    {
+        // slow handlers (/w<ms>) named in the script: the client waits that much longer for their answers
+        let text = String::from_utf8_lossy(&script).to_string();
+        let mut worst = 0u64;
+        for part in text.split("/w").skip(1) {
+            let digits: String = part.chars().take_while(char::is_ascii_digit).collect();
+            worst = worst.max(digits.parse::<u64>().unwrap_or(0));
+        }
+        if worst >= 4000 {
+            EXTRA_WAIT_MS.fetch_max(worst, std::sync::atomic::Ordering::SeqCst);
+        }
+    }
     let log = Arc::new(Mutex::new(Vec::new()));
     let log2 = log.clone();
     let permit = Permit::new();
@@ -418,7 +434,7 @@ fn server(toks: &[&str], idle: bool, revoke_mid: bool, second_server: bool, chec
 /// sends a request whose handler sleeps <slow_ms> and so occupies the whole blocking pool; then A goes away.  The temp
 /// file of the abandoned upload must be gone by the time A's connection has ended -- observed while B's handler is
 /// still running (busy=<files in the cache directory then>), not only after the server stopped.
-fn server_busy(toks: &[&str], stalled_logger: bool) -> String {
+fn server_busy(toks: &[&str], stalled_logger: bool, complete_later: bool) -> String {
     let small: usize = toks[0].parse().unwrap();
     let tmp = temp_dir::TempDir::new().unwrap();
     let cache = cache_dir(toks[1], &tmp);
@@ -455,7 +471,13 @@ fn server_busy(toks: &[&str], stalled_logger: bool) -> String {
         }
     };
     let mut a = std::net::TcpStream::connect(addr).unwrap();
-    let _ = a.write_all(&script);
+    // mode K: the upload is COMPLETED, but only after the other request has taken the blocking pool: the last kilobyte is
+    // held back until then, so the upload's second handler run has to wait for a pool thread for <slow_ms>
+    let held = if complete_later && script.len() > 2000 { 1000 } else { 0 };
+    if held > 0 {
+        EXTRA_WAIT_MS.fetch_max(slow_ms, std::sync::atomic::Ordering::SeqCst);
+    }
+    let _ = a.write_all(&script[..script.len() - held]);
     // the upload's handler has run and the body is being received into a file (or the scenario has none)
     wait(&|| count() > 0, 1500);
     let had_file = count() > 0;
@@ -471,6 +493,9 @@ fn server_busy(toks: &[&str], stalled_logger: bool) -> String {
     } else {
         let _ = b.write_all(b"GET /z HTTP/1.1\r\n\r\n");
         wait(&|| slow_started.load(std::sync::atomic::Ordering::SeqCst), 1500);
+    }
+    if held > 0 {
+        let _ = a.write_all(&script[script.len() - held..]);
     }
     let _ = a.shutdown(std::net::Shutdown::Write);
     let wire = if stalled_logger {
@@ -517,6 +542,90 @@ fn server_busy(toks: &[&str], stalled_logger: bool) -> String {
     )
 }
 
+/// mode N: `N <small> <cache> <nclients> <script>` -- several concurrent uploads: a full server on ONE async thread
+/// (two blocking threads); <nclients> clients send the same script 20 ms apart (an upload cut short: they stall), stay
+/// connected until every one of them has got as far as it can, then all go away.  No temp file may be left once the
+/// connections have ended (busy=<files then>), nor after the server has stopped (files=).  The log shows each entry
+/// once per <nclients> occurrences (the clients are served alike); the wire is the first client's.
+fn server_many(toks: &[&str]) -> String {
+    let small: usize = toks[0].parse().unwrap();
+    let tmp = temp_dir::TempDir::new().unwrap();
+    let cache = cache_dir(toks[1], &tmp);
+    let nclients: usize = toks[2].parse().unwrap();
+    let script = expand_bytes(toks[3]);
+    let log = Arc::new(Mutex::new(Vec::new()));
+    let log2 = log.clone();
+    let permit = Permit::new();
+    let executor = safina::executor::Executor::new(1, 2).unwrap();
+    let mut builder = HttpServerBuilder::new().max_conns(32).small_body_len(small).permit(permit.new_sub());
+    if let Some(dir) = &cache {
+        builder = builder.receive_large_bodies(dir);
+    }
+    let (addr, stopped) = executor.block_on(builder.spawn(move |req: Request| scripted(req, &log2))).unwrap();
+    let count = || std::fs::read_dir(tmp.path()).unwrap().count();
+    let mut clients = Vec::new();
+    for _ in 0..nclients {
+        let mut c = std::net::TcpStream::connect(addr).unwrap();
+        let _ = c.write_all(&script);
+        clients.push(c);
+        std::thread::sleep(std::time::Duration::from_millis(20));
+    }
+    // every upload that gets a file has one by now (or the scenario has none)
+    let t0 = std::time::Instant::now();
+    while count() < nclients && t0.elapsed() < std::time::Duration::from_millis(600) {
+        std::thread::sleep(std::time::Duration::from_millis(5));
+    }
+    let most = count();
+    let readers: Vec<_> = clients
+        .into_iter()
+        .map(|mut c| {
+            let _ = c.shutdown(std::net::Shutdown::Write);
+            std::thread::spawn(move || read_all(&mut c))
+        })
+        .collect();
+    let wires: Vec<Vec<u8>> = readers.into_iter().map(|r| r.join().unwrap()).collect();
+    // every connection has ended (or the server is beyond answering): no file may be alive now
+    let t0 = std::time::Instant::now();
+    while count() > 0 && t0.elapsed() < std::time::Duration::from_millis(1500) {
+        std::thread::sleep(std::time::Duration::from_millis(5));
+    }
+    let busy = count();
+    drop(permit);
+    let _ = stopped.recv_timeout(std::time::Duration::from_secs(5));
+    let mut files = usize::MAX;
+    for _ in 0..200 {
+        files = count();
+        if files == 0 {
+            break;
+        }
+        std::thread::sleep(std::time::Duration::from_millis(10));
+    }
+    let entries = log.lock().unwrap().clone();
+    let mut distinct: Vec<(String, usize)> = Vec::new();
+    for e in &entries {
+        match distinct.iter_mut().find(|d| &d.0 == e) {
+            Some(d) => d.1 += 1,
+            None => distinct.push((e.clone(), 1)),
+        }
+    }
+    let mut shown = Vec::new();
+    let mut even = true;
+    for (e, k) in &distinct {
+        even &= k % nclients == 0;
+        for _ in 0..(k / nclients) {
+            shown.push(e.clone());
+        }
+    }
+    let same = wires.iter().all(|w| w == &wires[0]);
+    format!(
+        "log=[{}] wire={} files={files} busy={busy} most={most} alike={}{}",
+        shown.join(","),
+        digest_wire(&wires[0]),
+        u8::from(even && same),
+        reset_mark()
+    )
+}
+
 fn tables() -> String {
     let mut out = format!("tables plain={}", tok_of_bytes(servlin::ContentType::PlainText.as_str().as_bytes()));
     for code in 0..1000u16 {
@@ -536,8 +645,10 @@ fn main() {
         "T" => server(&toks[1..], false, false, true, false),
         "V" => server(&toks[1..], false, false, false, true),
         "X" => direct_fsize(&toks[1..]),
-        "B" => server_busy(&toks[1..], false),
-        "E" => server_busy(&toks[1..], true),
+        "B" => server_busy(&toks[1..], false, false),
+        "E" => server_busy(&toks[1..], true, false),
+        "K" => server_busy(&toks[1..], false, true),
+        "N" => server_many(&toks[1..]),
         _ => "?".to_string(),
     });
 }
